@@ -4,7 +4,7 @@ CONSTANTS
   Bodies <- BodiesH
   TickMs <- Ticks1
   MaxTicks = 2
-  MaxPre = 99
+  MaxPre = 4
 INVARIANT NoMix
 INVARIANT Joined
 INVARIANT EndFrame
